@@ -30,6 +30,14 @@ func Run(c Case, strictOrder bool) *Exec {
 		if o.K == "advance" && o.A > maxAdv {
 			maxAdv = o.A
 		}
+		if o.K == "ftick" {
+			for _, sub := range o.Sub {
+				starts += len(sub)
+			}
+			if maxAdv < 2 {
+				maxAdv = 2
+			}
+		}
 	}
 	if b := int64(starts)*(maxAdv+2) + 16; b > int64(bound) {
 		if b > 1<<24 {
@@ -102,6 +110,18 @@ func Emit(r *hxlib.Run, c Case, model, strictOrder bool) *Exec {
 	if model {
 		r.Op(c.Header(), "ok")
 		for i := 0; i < e.Ran; i++ {
+			if c.Ops[i].K == "ftick" {
+				// flattened: fbegin / (yield, client ops)* / fend
+				r.Op("fbegin "+fmt.Sprint(c.Ops[i].A), "ok")
+				for _, st := range e.Obs[i].Steps {
+					r.Op("yield", fmt.Sprintf("%s %d", st.Point, st.ID))
+					for j, co := range st.Ops {
+						r.Op(co.String(), st.Obs[j].Out)
+					}
+				}
+				r.Op("fend", e.Obs[i].Out)
+				continue
+			}
 			r.Op(c.Ops[i].String(), e.Obs[i].Out)
 		}
 	}
